@@ -271,7 +271,7 @@ def solver_records(rng, count):
     for _ in range(count):
         n = rng.choice([2, 3, 5, 8, 16])
         dt = rng.choice([torch.float32, torch.float64])
-        if rng.random() < 0.35:
+        if rng.random() < 0.5:
             # badly conditioned dense input (cond 1e4 .. 1e9): where the solvers' flags and guard matter
             lam = torch.logspace(0, -rng.choice([4, 5, 6, 7, 8, 9]), n, dtype=F64)
             qh = haar(n, gen)
